@@ -39,7 +39,7 @@ Ref(i) == [k |-> "ref", n |-> i]
 Err(e) == [k |-> "err", e |-> e]
 IsErr(v) == v.k = "err"
 
-BoxOps  == {"val", "items0", "items1", "items2", "plus1", "me_val", "boom", "nope", "tmo", "gboom"}
+BoxOps  == {"val", "items0", "items1", "items2", "plus1", "me_val", "boom", "nope", "tmo", "gboom", "uval", "uplus2"}   \* u...: names with a leading underscore
 CntOps  == {"bump", "count"}
 IterOps == {"next"}
 ListOps == {"iter", "item0", "count11"}
@@ -72,6 +72,8 @@ Apply(o, op) ==
     [] o.k = "box" /\ op = "items1" -> <<I(o.n + 1), o, NoObj>>
     [] o.k = "box" /\ op = "items2" -> <<Err("IndexError"), o, NoObj>>
     [] o.k = "box" /\ op = "plus1"  -> <<I(o.n + 1), o, NoObj>>
+    [] o.k = "box" /\ op = "uval"   -> <<I(o.n), o, NoObj>>                   \* obj._val (underscore-named members are members)
+    [] o.k = "box" /\ op = "uplus2" -> <<I(o.n + 2), o, NoObj>>               \* obj._plus2()
     [] o.k = "box" /\ op = "me_val" -> <<I(o.n), o, NoObj>>
     [] o.k = "box" /\ op = "boom"   -> <<Err("ValueError"), o, NoObj>>
     [] o.k = "box" /\ op = "tmo"    -> <<Err("TimeoutError"), o, NoObj>>      \* the evaluated code itself raises TimeoutError
